@@ -1388,7 +1388,10 @@ pub fn view(book: &Spreadsheet) -> String {
     let mut names: Vec<String> = vec![];
     // every defined name with its HOME: the list it is found in after loading (`w` = Spreadsheet::get_defined_names(),
     // k = get_sheet(k).get_defined_names()).  `dview_of` / `mview_of` decide what of it each comparison sees.
-    let dn = |d: &DefinedName, home: &str| format!("{}:{}:{}:{}", hex(d.get_name()), if d.has_local_sheet_id() { d.get_local_sheet_id().to_string() } else { "~".into() }, hex(&quote_qualifiers(&d.get_address())), home);
+    // 5th field: the text exactly as `get_address()` returns it (the spelling of the qualifiers included) - kept by `mview_of` for
+    // the comparison with the reader MODEL (C03_defined_names_any_spelling: the library shows canonText of the file's text), dropped by
+    // `dview_of` (the independent decoder shows the file's spelling; the two are compared with plain qualifiers quoted, field 3)
+    let dn = |d: &DefinedName, home: &str| format!("{}:{}:{}:{}:{}", hex(d.get_name()), if d.has_local_sheet_id() { d.get_local_sheet_id().to_string() } else { "~".into() }, hex(&quote_qualifiers(&d.get_address())), home, hex(&d.get_address()));
     for d in book.get_defined_names() {
         names.push(dn(d, "w"));
     }
@@ -1568,13 +1571,14 @@ pub fn dview_of(out: &mut Out, v: &str) -> String {
                     .split('|')
                     .map(|it| {
                         let p: Vec<&str> = it.split(':').collect();
+                        let p: Vec<&str> = if p.len() == 5 { p[..4].to_vec() } else { p };
                         if p.len() == 4 {
                             out.count(if p[1] != "~" { "name.home.scoped" } else if p[3] == "w" { "name.home.global-in-workbook-list" } else { "name.home.global-rehomed-to-sheet" });
                         }
                         if p.len() == 4 && p[1] == "~" {
                             format!("{}:{}:{}:g", p[0], p[1], p[2])
                         } else {
-                            it.to_string()
+                            p.join(":")
                         }
                     })
                     .collect();
